@@ -1,7 +1,7 @@
 SPECIFICATION Spec
 CONSTANTS
   MaxLen = 3
-  Plain = {"p1", "p3", "p6"}
+  Plain = {"p1", "p3", "p6", "p3c", "p6c"}
   Rel8 = {"j8w", "j8n", "jmp8"}
   Rel32 = {"call32", "rip7", "lea7", "jcc32"}
   Tails = {1, 3, 9}
